@@ -21,7 +21,7 @@ theorem keep_requestTerminate (s : EState) (k r : String) : Keep s (requestTermi
   split
   · exact keep_refuse _ _
   · split
-    · exact (keep_termPrep s k r).trans (keep_refuse _ _)
+    · exact keep_refuse _ _
     · rename_i s' hs
       exact ((keep_termPrep s k r).trans (keep_setState hs)).trans (keep_termAfter _ _ _)
 
